@@ -544,8 +544,10 @@ async fn run(case: Json, tol: Tolerate) -> Outcome {
         if let Some(kind) = &just_dropped {
             // I2 / I4 / I6 right after the drop
             let never = matches!(down_reason_class(kind), "hard-reset-received" | "non-cease-received" | "admin-shutdown" | "operator-hard-reset" | "local-error-notification");
-            if never && !rib.is_empty() {
-                fail!(format!("I4-helper-mode-after-{}", down_reason_class(kind)), "op {} {}: {} path(s) of the peer are still in the RIB: {:?}", opi, op.to_compact(), rib.len(), rib.keys().collect::<Vec<_>>());
+            // (paths an earlier, deleted incarnation of the neighbour left behind under its own timers are I1's business)
+            let left: Vec<_> = rib.keys().filter(|k| !from_older_session.contains(*k)).collect();
+            if never && !left.is_empty() {
+                fail!(format!("I4-helper-mode-after-{}", down_reason_class(kind)), "op {} {}: {} path(s) of the peer are still in the RIB: {:?}", opi, op.to_compact(), left.len(), left);
             }
             let prev_gr = m.gr_fams.clone();
             let prev_llgr = m.llgr_fams.clone();
